@@ -5,6 +5,7 @@ import (
 	"fmt"
 	"regexp"
 	"strings"
+	"sync/atomic"
 
 	"github.com/uhn/ggql/pkg/ggql"
 
@@ -24,7 +25,13 @@ type c07SItem struct {
 }
 
 // Greet takes a required argument.
-func (it *c07SItem) Greet(name string, loud bool) string { return "hi " + name + it.Name }
+func (it *c07SItem) Greet(name string, loud bool) string {
+	atomic.AddInt64(&c07GreetCalls, 1)
+	return "hi " + name + it.Name
+}
+
+// c07GreetCalls counts invocations of Greet (C10 asserts that a call without the required argument never gets there).
+var c07GreetCalls int64
 
 // Boom fails on every call.
 func (it *c07SItem) Boom() (int, error) { return 0, errors.New("boom failed for " + it.Name) }
